@@ -7,9 +7,22 @@
   evaluated at the last loop head on the data of the iterate that is returned.  Pure structure:
   any carrier (IEEE doubles included), any oracles, any stop schedule, any budget.
   What the chain and the criteria themselves mean is `Props/C06.lean`.
+
+  `…_fuel` theorems carry the hypothesis `fuelOut = false` (asserted by the replay on every recorded
+  run); the plain names at the end of the file discharge it over an ordered field from `FuelOK pr N M`
+  and a stop flag that is never lowered (`Proofs/ZerofprFuel.lean`).
+
+  The no-progress counter is pinned to the *reported* iterates: it is `npRun` (`Props/C06.lean`) of
+  the flags `xₖ == xₖ₊₁` between the `x` of consecutive progress callbacks
+  (`zerofpr_no_progress_counter`), so `NoProgress` is returned only after more than
+  `max_no_progress` consecutive reported iterates with identical `x`
+  (`zerofpr_noProgress_needs_consecutive`).
 -/
 import Alpaqa.Proofs.ZerofprInv
+import Alpaqa.Proofs.ZerofprChain
+import Alpaqa.Proofs.ZerofprFuel
 import Alpaqa.Proofs.ZerofprExample
+import Alpaqa.Props.C06
 
 namespace Alpaqa.Props.C06_Zerofpr
 open Alpaqa Alpaqa.Zerofpr Alpaqa.Gen
@@ -43,8 +56,8 @@ theorem k_le_step (P : Problem α) (dir : Direction D α) (pr : Params α) (stop
 /-- **The reported number of iterations never exceeds `max_iter`** — unconditionally (every
     oracle, stop schedule, budget; even if the model's fuel ran out). -/
 theorem zerofpr_iterations_le_max_iter (P : Problem α) (dir : Direction D α) (d0 : D)
-    (pr : Params α) (stop : Nat → Bool) (oot : Bool) (x0 y Sig errz0 gV : Vec α) (gS : α) :
-    (run P dir d0 pr stop oot x0 y Sig errz0 gV gS).stats.iterations ≤ pr.maxIter := by
+    (pr : Params α) (stop : Nat → Bool) (oot : Bool) (x0 y Sig errz0 gV : Vec α) (gS iS : α) :
+    (run P dir d0 pr stop oot x0 y Sig errz0 gV gS iS).stats.iterations ≤ pr.maxIter := by
   unfold run
   cases hi : initState P d0 pr stop x0 gV gS with
   | inl t => simp [stats0]
@@ -69,20 +82,20 @@ theorem zerofpr_iterations_le_max_iter (P : Problem α) (dir : Direction D α) (
       oracle at `(c.x̂, c.ŷ)`;
     * `status` is the generated `check_all_stop_conditions` chain at `(k, ε, no_progress)` with
       `k` the reported iteration count — and it is not `Busy`. -/
-theorem zerofpr_status_eps_at_last_head (P : Problem α) (dir : Direction D α) (d0 : D)
-    (pr : Params α) (stop : Nat → Bool) (oot : Bool) (x0 y Sig errz0 gV : Vec α) (gS : α)
+theorem zerofpr_status_eps_at_last_head_fuel (P : Problem α) (dir : Direction D α) (d0 : D)
+    (pr : Params α) (stop : Nat → Bool) (oot : Bool) (x0 y Sig errz0 gV : Vec α) (gS iS : α)
     (s0 : St α D) (hinit : initState P d0 pr stop x0 gV gS = .inr s0)
-    (hfuel : (run P dir d0 pr stop oot x0 y Sig errz0 gV gS).fuelOut = false) :
+    (hfuel : (run P dir d0 pr stop oot x0 y Sig errz0 gV gS iS).fuelOut = false) :
     ∃ c np t,
-      (run P dir d0 pr stop oot x0 y Sig errz0 gV gS).final = some c ∧
-      (run P dir d0 pr stop oot x0 y Sig errz0 gV gS).stats.eps
+      (run P dir d0 pr stop oot x0 y Sig errz0 gV gS iS).final = some c ∧
+      (run P dir d0 pr stop oot x0 y Sig errz0 gV gS iS).stats.eps
         = epsOf P pr c (P.gradL c.xhat c.yhat) ∧
-      (run P dir d0 pr stop oot x0 y Sig errz0 gV gS).stats.status
+      (run P dir d0 pr stop oot x0 y Sig errz0 gV gS iS).stats.status
         = statusChain pr.tolerance pr.maxIter pr.maxNoProgress
-            (run P dir d0 pr stop oot x0 y Sig errz0 gV gS).stats.iterations
-            (run P dir d0 pr stop oot x0 y Sig errz0 gV gS).stats.eps np oot (stop t) ∧
-      (run P dir d0 pr stop oot x0 y Sig errz0 gV gS).ticks = t + 1 ∧
-      (run P dir d0 pr stop oot x0 y Sig errz0 gV gS).stats.status ≠ .Busy := by
+            (run P dir d0 pr stop oot x0 y Sig errz0 gV gS iS).stats.iterations
+            (run P dir d0 pr stop oot x0 y Sig errz0 gV gS iS).stats.eps np oot (stop t) ∧
+      (run P dir d0 pr stop oot x0 y Sig errz0 gV gS iS).ticks = t + 1 ∧
+      (run P dir d0 pr stop oot x0 y Sig errz0 gV gS iS).stats.status ≠ .Busy := by
   unfold run at hfuel ⊢
   simp only [hinit] at hfuel ⊢
   rcases mainLoop_cases P dir pr stop oot x0 y Sig errz0 (fun _ => True)
@@ -102,15 +115,15 @@ theorem zerofpr_status_eps_at_last_head (P : Problem α) (dir : Direction D α) 
 /-- The final progress callback reports exactly what is returned: the iterate that is written
     back, the returned ε, status and iteration count, and the `∇ψ(x̂)` the criterion was
     evaluated with. -/
-theorem zerofpr_final_callback (P : Problem α) (dir : Direction D α) (d0 : D)
-    (pr : Params α) (stop : Nat → Bool) (oot : Bool) (x0 y Sig errz0 gV : Vec α) (gS : α)
+theorem zerofpr_final_callback_fuel (P : Problem α) (dir : Direction D α) (d0 : D)
+    (pr : Params α) (stop : Nat → Bool) (oot : Bool) (x0 y Sig errz0 gV : Vec α) (gS iS : α)
     (s0 : St α D) (hinit : initState P d0 pr stop x0 gV gS = .inr s0)
-    (hfuel : (run P dir d0 pr stop oot x0 y Sig errz0 gV gS).fuelOut = false) :
-    ∃ cb, (run P dir d0 pr stop oot x0 y Sig errz0 gV gS).callbacks.getLast? = some cb ∧
-      (run P dir d0 pr stop oot x0 y Sig errz0 gV gS).final = some cb.it ∧
-      cb.eps = (run P dir d0 pr stop oot x0 y Sig errz0 gV gS).stats.eps ∧
-      cb.status = (run P dir d0 pr stop oot x0 y Sig errz0 gV gS).stats.status ∧
-      cb.k = (run P dir d0 pr stop oot x0 y Sig errz0 gV gS).stats.iterations ∧
+    (hfuel : (run P dir d0 pr stop oot x0 y Sig errz0 gV gS iS).fuelOut = false) :
+    ∃ cb, (run P dir d0 pr stop oot x0 y Sig errz0 gV gS iS).callbacks.getLast? = some cb ∧
+      (run P dir d0 pr stop oot x0 y Sig errz0 gV gS iS).final = some cb.it ∧
+      cb.eps = (run P dir d0 pr stop oot x0 y Sig errz0 gV gS iS).stats.eps ∧
+      cb.status = (run P dir d0 pr stop oot x0 y Sig errz0 gV gS iS).stats.status ∧
+      cb.k = (run P dir d0 pr stop oot x0 y Sig errz0 gV gS iS).stats.iterations ∧
       cb.gradPsiHat = P.gradL cb.it.xhat cb.it.yhat := by
   unfold run at hfuel ⊢
   simp only [hinit] at hfuel ⊢
@@ -126,17 +139,18 @@ theorem zerofpr_final_callback (P : Problem α) (dir : Direction D α) (d0 : D)
     rw [hp, hs]
   · rw [he] at hfuel; simp at hfuel
 
-/-- The early return (non-finite Lipschitz estimate): `NotFinite`, zero iterations, no callback,
-    nothing written. -/
+/-- The early return (non-finite Lipschitz estimate): `NotFinite`, zero iterations, `ε = inf` (the
+    value `Stats::ε` is initialised with), no callback, nothing written. -/
 theorem zerofpr_early_not_finite (P : Problem α) (dir : Direction D α) (d0 : D)
-    (pr : Params α) (stop : Nat → Bool) (oot : Bool) (x0 y Sig errz0 gV : Vec α) (gS : α)
+    (pr : Params α) (stop : Nat → Bool) (oot : Bool) (x0 y Sig errz0 gV : Vec α) (gS iS : α)
     (t : Nat) (hinit : initState P d0 pr stop x0 gV gS = .inl t) :
-    (run P dir d0 pr stop oot x0 y Sig errz0 gV gS).stats.status = .NotFinite ∧
-    (run P dir d0 pr stop oot x0 y Sig errz0 gV gS).stats.iterations = 0 ∧
-    (run P dir d0 pr stop oot x0 y Sig errz0 gV gS).callbacks = [] ∧
-    (run P dir d0 pr stop oot x0 y Sig errz0 gV gS).wrote = false := by
+    (run P dir d0 pr stop oot x0 y Sig errz0 gV gS iS).stats.status = .NotFinite ∧
+    (run P dir d0 pr stop oot x0 y Sig errz0 gV gS iS).stats.iterations = 0 ∧
+    (run P dir d0 pr stop oot x0 y Sig errz0 gV gS iS).stats.eps = iS ∧
+    (run P dir d0 pr stop oot x0 y Sig errz0 gV gS iS).callbacks = [] ∧
+    (run P dir d0 pr stop oot x0 y Sig errz0 gV gS iS).wrote = false := by
   unfold run; simp only [hinit]
-  refine ⟨?_, ?_, ?_, ?_⟩ <;> first | rfl | trivial
+  refine ⟨?_, ?_, ?_, ?_, ?_⟩ <;> first | rfl | trivial
 
 /-- …which happens exactly when the initial Lipschitz estimate is not finite. -/
 theorem zerofpr_early_iff (P : Problem α) (d0 : D) (pr : Params α) (stop : Nat → Bool)
@@ -148,27 +162,27 @@ theorem zerofpr_early_iff (P : Problem α) (d0 : D) (pr : Params α) (stop : Nat
   cases h : RealLike.isFinite (initLipschitz P pr x0 gV gS).1.L <;> simp
 
 /-- Consequences through the generated chain: what each returned status certifies. -/
-theorem zerofpr_status_meaning (P : Problem α) (dir : Direction D α) (d0 : D)
-    (pr : Params α) (stop : Nat → Bool) (oot : Bool) (x0 y Sig errz0 gV : Vec α) (gS : α)
+theorem zerofpr_status_meaning_fuel (P : Problem α) (dir : Direction D α) (d0 : D)
+    (pr : Params α) (stop : Nat → Bool) (oot : Bool) (x0 y Sig errz0 gV : Vec α) (gS iS : α)
     (s0 : St α D) (hinit : initState P d0 pr stop x0 gV gS = .inr s0)
-    (hfuel : (run P dir d0 pr stop oot x0 y Sig errz0 gV gS).fuelOut = false) :
-    ((run P dir d0 pr stop oot x0 y Sig errz0 gV gS).stats.status = .Converged ↔
-      (run P dir d0 pr stop oot x0 y Sig errz0 gV gS).stats.eps
+    (hfuel : (run P dir d0 pr stop oot x0 y Sig errz0 gV gS iS).fuelOut = false) :
+    ((run P dir d0 pr stop oot x0 y Sig errz0 gV gS iS).stats.status = .Converged ↔
+      (run P dir d0 pr stop oot x0 y Sig errz0 gV gS iS).stats.eps
         ≤ (if pr.tolerance > 0 then pr.tolerance else (1e-8 : α))) ∧
-    ((run P dir d0 pr stop oot x0 y Sig errz0 gV gS).stats.status = .MaxIter →
-      (run P dir d0 pr stop oot x0 y Sig errz0 gV gS).stats.iterations = pr.maxIter) ∧
-    ((run P dir d0 pr stop oot x0 y Sig errz0 gV gS).stats.status = .MaxTime → oot = true) ∧
-    ((run P dir d0 pr stop oot x0 y Sig errz0 gV gS).stats.status = .NotFinite →
-      RealLike.isFinite (run P dir d0 pr stop oot x0 y Sig errz0 gV gS).stats.eps = false) ∧
-    ((run P dir d0 pr stop oot x0 y Sig errz0 gV gS).stats.status = .Interrupted →
-      stop ((run P dir d0 pr stop oot x0 y Sig errz0 gV gS).ticks - 1) = true) ∧
-    (run P dir d0 pr stop oot x0 y Sig errz0 gV gS).stats.status ≠ .Exception ∧
-    (run P dir d0 pr stop oot x0 y Sig errz0 gV gS).stats.status ≠ .Busy := by
+    ((run P dir d0 pr stop oot x0 y Sig errz0 gV gS iS).stats.status = .MaxIter →
+      (run P dir d0 pr stop oot x0 y Sig errz0 gV gS iS).stats.iterations = pr.maxIter) ∧
+    ((run P dir d0 pr stop oot x0 y Sig errz0 gV gS iS).stats.status = .MaxTime → oot = true) ∧
+    ((run P dir d0 pr stop oot x0 y Sig errz0 gV gS iS).stats.status = .NotFinite →
+      RealLike.isFinite (run P dir d0 pr stop oot x0 y Sig errz0 gV gS iS).stats.eps = false) ∧
+    ((run P dir d0 pr stop oot x0 y Sig errz0 gV gS iS).stats.status = .Interrupted →
+      stop ((run P dir d0 pr stop oot x0 y Sig errz0 gV gS iS).ticks - 1) = true) ∧
+    (run P dir d0 pr stop oot x0 y Sig errz0 gV gS iS).stats.status ≠ .Exception ∧
+    (run P dir d0 pr stop oot x0 y Sig errz0 gV gS iS).stats.status ≠ .Busy := by
   obtain ⟨c, np, t, _, _, hst, ht, hnb⟩ :=
-    zerofpr_status_eps_at_last_head P dir d0 pr stop oot x0 y Sig errz0 gV gS s0 hinit hfuel
+    zerofpr_status_eps_at_last_head_fuel P dir d0 pr stop oot x0 y Sig errz0 gV gS iS s0 hinit hfuel
   have ho := chain_only_if pr.tolerance pr.maxIter pr.maxNoProgress
-    (run P dir d0 pr stop oot x0 y Sig errz0 gV gS).stats.iterations
-    (run P dir d0 pr stop oot x0 y Sig errz0 gV gS).stats.eps np oot (stop t)
+    (run P dir d0 pr stop oot x0 y Sig errz0 gV gS iS).stats.iterations
+    (run P dir d0 pr stop oot x0 y Sig errz0 gV gS iS).stats.eps np oot (stop t)
   rw [← hst] at ho
   refine ⟨?_, ho.2.1, ho.1, ho.2.2.1, ?_, ho.2.2.2.2.2, hnb⟩
   · rw [hst]; exact chain_converged_iff _ _ _ _ _ _ _ _
@@ -183,6 +197,118 @@ theorem zerofpr_no_progress_update (P : Problem α) (dir : Direction D α) (pr :
       noProgressUpdate s.noProgress s.k pr.maxNoProgress
         (s.curr.x == (iterBody P dir pr stop s eps).curr.x) := by
   rw [(iterBody_completed P dir pr stop s eps h).2.2.1, (iterBody_completed P dir pr stop s eps h).1]
+
+/-! ### The no-progress counter, in terms of the reported iterates -/
+
+/-- The "iterate unchanged" flags between consecutive progress callbacks: `xₖ == xₖ₊₁` for the `x`
+    reported by callback `k` and by the next one (the final callback included). -/
+def cbFlags (cbs : List (Callback α)) : List Bool := pairFlags (cbs.map (·.it.x))
+
+theorem npRun_append (M k np : Nat) (fl : List Bool) (f : Bool) :
+    C06.npRun M k np (fl ++ [f]) = noProgressUpdate (C06.npRun M k np fl) (k + fl.length) M f := by
+  induction fl generalizing k np with
+  | nil => simp [C06.npRun]
+  | cons s ss ih =>
+    simp only [List.cons_append, C06.npRun, List.length_cons]
+    rw [ih]
+    congr 1
+    omega
+
+/-- Loop invariant: `k` is the number of callbacks made so far, and the counter is `npRun` of the
+    flags between the reported `x`s followed by the current `x`. -/
+def NpInv (pr : Params α) (s : St α D) : Prop :=
+  s.k = s.cbs.length ∧
+  s.noProgress = C06.npRun pr.maxNoProgress 0 0
+    (pairFlags ((s.cbs.map (·.it.x)).reverse ++ [s.curr.x]))
+
+theorem npInv_step (P : Problem α) (dir : Direction D α) (pr : Params α) (stop : Nat → Bool)
+    (oot : Bool) (s : St α D) (h : NpInv pr s) :
+    NpInv pr (iterBody P dir pr stop (headStep P pr stop oot s).1 (headStep P pr stop oot s).2.1) := by
+  have hs := headStep_same P pr stop oot s
+  generalize hs' : (headStep P pr stop oot s).1 = s' at hs
+  generalize (headStep P pr stop oot s).2.1 = eps
+  have h' : NpInv pr s' := by
+    unfold NpInv at h ⊢
+    rw [hs.1, hs.2.1, hs.2.2.1, hs.2.2.2.1]; exact h
+  by_cases hst : stop (lsOf P dir pr stop s').tick = true
+  · have hd := iterBody_interrupted P dir pr stop s' eps hst
+    unfold NpInv at h' ⊢
+    rw [hd.1, hd.2.2.1, hd.2.2.2.1, hd.2.2.2.2.1]; exact h'
+  · have hst' : stop (lsOf P dir pr stop s').tick = false := by simpa using hst
+    have hd := iterBody_completed P dir pr stop s' eps hst'
+    obtain ⟨cb, hcbs, _, _, _, _, hit⟩ := hd.2.2.2
+    have hx : cb.it.x = s'.curr.x := by rw [hit]; exact updateStage_x P dir pr _ _ _
+    unfold NpInv at h' ⊢
+    rw [hd.1, hd.2.1, hd.2.2.1, hcbs]
+    refine ⟨by rw [h'.1]; simp, ?_⟩
+    simp only [List.map_cons, List.reverse_cons]
+    rw [hx, pairFlags_snoc, npRun_append, ← h'.2, pairFlags_length]
+    simp only [List.length_reverse, List.length_map, Nat.zero_add]
+    rw [← h'.1]
+
+/-- **The no-progress counter the status chain sees is `npRun` of the "iterate unchanged" flags of the
+    reported iterates** — one flag per completed iteration, comparing the `x` handed to callback `k`
+    with the `x` handed to the next callback; the reported iteration count is the number of flags.
+    Together with the chain: the returned status is the generated `check_all_stop_conditions` at
+    `(k, ε, that counter)`. -/
+theorem zerofpr_no_progress_counter_fuel (P : Problem α) (dir : Direction D α) (d0 : D)
+    (pr : Params α) (stop : Nat → Bool) (oot : Bool) (x0 y Sig errz0 gV : Vec α) (gS iS : α)
+    (s0 : St α D) (hinit : initState P d0 pr stop x0 gV gS = .inr s0)
+    (hfuel : (run P dir d0 pr stop oot x0 y Sig errz0 gV gS iS).fuelOut = false) :
+    ∃ t,
+      (run P dir d0 pr stop oot x0 y Sig errz0 gV gS iS).stats.status
+        = statusChain pr.tolerance pr.maxIter pr.maxNoProgress
+            (run P dir d0 pr stop oot x0 y Sig errz0 gV gS iS).stats.iterations
+            (run P dir d0 pr stop oot x0 y Sig errz0 gV gS iS).stats.eps
+            (C06.npRun pr.maxNoProgress 0 0
+              (cbFlags (run P dir d0 pr stop oot x0 y Sig errz0 gV gS iS).callbacks)) oot (stop t) ∧
+      (run P dir d0 pr stop oot x0 y Sig errz0 gV gS iS).ticks = t + 1 ∧
+      (run P dir d0 pr stop oot x0 y Sig errz0 gV gS iS).stats.iterations
+        = (cbFlags (run P dir d0 pr stop oot x0 y Sig errz0 gV gS iS).callbacks).length := by
+  rcases run_cases P dir d0 pr stop oot x0 y Sig errz0 gV gS iS (NpInv pr)
+    (fun s hi => by
+      have hk := initState_good P d0 pr stop x0 gV gS s hi
+      unfold NpInv
+      rw [hk.2.1, hk.2.2.1, hk.2.2.2]
+      simp [pairFlags, C06.npRun])
+    (fun s hI _ => npInv_step P dir pr stop oot s hI) hfuel with ⟨t, ht⟩ | ⟨s', hI, _, he⟩
+  · rw [hinit] at ht; exact absurd ht (by simp)
+  · have hs := headStep_same P pr stop oot s'
+    have hp := headStep_spec P pr stop oot s'
+    have hx := exitBlock_spec pr (headStep P pr stop oot s').1 (headStep P pr stop oot s').2.1
+      (headStep P pr stop oot s').2.2 x0 y Sig errz0
+    have hcb : cbFlags (run P dir d0 pr stop oot x0 y Sig errz0 gV gS iS).callbacks =
+        pairFlags ((s'.cbs.map (·.it.x)).reverse ++ [s'.curr.x]) := by
+      rw [he, exitBlock_callbacks, hs.2.2.2.1, hs.1]
+      unfold cbFlags
+      simp only [List.map_append, List.map_reverse, List.map_cons, List.map_nil]
+    refine ⟨s'.tick + 2 + epsTicks pr.stopCrit, ?_, ?_, ?_⟩
+    · rw [hcb, ← hI.2, he, hx.2.1, hx.2.2.1, hx.2.2.2.1, hs.2.1]; exact hp.2.2
+    · rw [he, hx.2.2.2.2.2.2.1, hs.2.2.2.2.2]
+    · rw [hcb, pairFlags_length, he, hx.2.2.1, hs.2.1, hI.1]; simp
+
+/-- **`NoProgress` is returned only after more than `max_no_progress` consecutive sampled iterations
+    without any change of the iterate**: the last `max_no_progress + 1` (or more) flags
+    `xₖ == xₖ₊₁` between the `x` of consecutive progress callbacks are all true. -/
+theorem zerofpr_noProgress_needs_consecutive_fuel (P : Problem α) (dir : Direction D α) (d0 : D)
+    (pr : Params α) (stop : Nat → Bool) (oot : Bool) (x0 y Sig errz0 gV : Vec α) (gS iS : α)
+    (hfuel : (run P dir d0 pr stop oot x0 y Sig errz0 gV gS iS).fuelOut = false)
+    (hs : (run P dir d0 pr stop oot x0 y Sig errz0 gV gS iS).stats.status = .NoProgress) :
+    pr.maxNoProgress <
+      ((cbFlags (run P dir d0 pr stop oot x0 y Sig errz0 gV gS iS).callbacks).reverse.takeWhile
+        (· = true)).length := by
+  cases hi : initState P d0 pr stop x0 gV gS with
+  | inl t =>
+    have := (zerofpr_early_not_finite P dir d0 pr stop oot x0 y Sig errz0 gV gS iS t hi).1
+    rw [this] at hs; exact absurd hs (by decide)
+  | inr s0 =>
+    obtain ⟨t, hst, _, _⟩ :=
+      zerofpr_no_progress_counter_fuel P dir d0 pr stop oot x0 y Sig errz0 gV gS iS s0 hi hfuel
+    rw [hst] at hs
+    have h1 := (chain_only_if _ _ _ _ _ _ _ _).2.2.2.1 hs
+    have h2 := C06.no_progress_counts_consecutive pr.maxNoProgress
+      (cbFlags (run P dir d0 pr stop oot x0 y Sig errz0 gV gS iS).callbacks) 0
+    omega
 
 /-! ### Non-vacuity: the chain the theorems refer to takes every value it can -/
 section examples
@@ -201,5 +327,141 @@ example : (exRun (fun _ => false)).fuelOut = false ∧
     (exRun (fun _ => false)).callbacks.length = 4 := by
   decide +kernel
 end examples
+
+/-! ### The same statements with the fuel hypothesis discharged (ordered field) -/
+section field
+variable {α D : Type} [Field α] [LinearOrder α] [IsStrictOrderedRing α] [RealLike α]
+
+/-- **Returned status and ε are the generated chain / criterion at the last loop head**, with the
+    no-progress counter of the reported iterates — fuel hypothesis discharged. -/
+theorem zerofpr_status_eps_at_last_head (P : Problem α) (dir : Direction D α) (d0 : D)
+    (pr : Params α) (stop : Nat → Bool) (hm : StopMono stop) (N M : Nat) (hF : FuelOK pr N M)
+    (oot : Bool) (x0 y Sig errz0 gV : Vec α) (gS iS : α)
+    (s0 : St α D) (hinit : initState P d0 pr stop x0 gV gS = .inr s0) :
+    (∃ c np t,
+      (run P dir d0 pr stop oot x0 y Sig errz0 gV gS iS).final = some c ∧
+      (run P dir d0 pr stop oot x0 y Sig errz0 gV gS iS).stats.eps
+        = epsOf P pr c (P.gradL c.xhat c.yhat) ∧
+      (run P dir d0 pr stop oot x0 y Sig errz0 gV gS iS).stats.status
+        = statusChain pr.tolerance pr.maxIter pr.maxNoProgress
+            (run P dir d0 pr stop oot x0 y Sig errz0 gV gS iS).stats.iterations
+            (run P dir d0 pr stop oot x0 y Sig errz0 gV gS iS).stats.eps np oot (stop t) ∧
+      (run P dir d0 pr stop oot x0 y Sig errz0 gV gS iS).ticks = t + 1 ∧
+      (run P dir d0 pr stop oot x0 y Sig errz0 gV gS iS).stats.status ≠ .Busy) ∧
+    (∃ t,
+      (run P dir d0 pr stop oot x0 y Sig errz0 gV gS iS).stats.status
+        = statusChain pr.tolerance pr.maxIter pr.maxNoProgress
+            (run P dir d0 pr stop oot x0 y Sig errz0 gV gS iS).stats.iterations
+            (run P dir d0 pr stop oot x0 y Sig errz0 gV gS iS).stats.eps
+            (C06.npRun pr.maxNoProgress 0 0
+              (cbFlags (run P dir d0 pr stop oot x0 y Sig errz0 gV gS iS).callbacks)) oot (stop t) ∧
+      (run P dir d0 pr stop oot x0 y Sig errz0 gV gS iS).ticks = t + 1 ∧
+      (run P dir d0 pr stop oot x0 y Sig errz0 gV gS iS).stats.iterations
+        = (cbFlags (run P dir d0 pr stop oot x0 y Sig errz0 gV gS iS).callbacks).length) :=
+  have hf := run_fuel P dir d0 pr stop hm N M hF oot x0 y Sig errz0 gV gS iS
+  ⟨zerofpr_status_eps_at_last_head_fuel P dir d0 pr stop oot x0 y Sig errz0 gV gS iS s0 hinit hf,
+   zerofpr_no_progress_counter_fuel P dir d0 pr stop oot x0 y Sig errz0 gV gS iS s0 hinit hf⟩
+
+/-- What each returned status certifies — fuel hypothesis discharged. -/
+theorem zerofpr_status_meaning (P : Problem α) (dir : Direction D α) (d0 : D)
+    (pr : Params α) (stop : Nat → Bool) (hm : StopMono stop) (N M : Nat) (hF : FuelOK pr N M)
+    (oot : Bool) (x0 y Sig errz0 gV : Vec α) (gS iS : α)
+    (s0 : St α D) (hinit : initState P d0 pr stop x0 gV gS = .inr s0) :
+    ((run P dir d0 pr stop oot x0 y Sig errz0 gV gS iS).stats.status = .Converged ↔
+      (run P dir d0 pr stop oot x0 y Sig errz0 gV gS iS).stats.eps
+        ≤ (if pr.tolerance > 0 then pr.tolerance else (1e-8 : α))) ∧
+    ((run P dir d0 pr stop oot x0 y Sig errz0 gV gS iS).stats.status = .MaxIter →
+      (run P dir d0 pr stop oot x0 y Sig errz0 gV gS iS).stats.iterations = pr.maxIter) ∧
+    ((run P dir d0 pr stop oot x0 y Sig errz0 gV gS iS).stats.status = .MaxTime → oot = true) ∧
+    ((run P dir d0 pr stop oot x0 y Sig errz0 gV gS iS).stats.status = .NotFinite →
+      RealLike.isFinite (run P dir d0 pr stop oot x0 y Sig errz0 gV gS iS).stats.eps = false) ∧
+    ((run P dir d0 pr stop oot x0 y Sig errz0 gV gS iS).stats.status = .Interrupted →
+      stop ((run P dir d0 pr stop oot x0 y Sig errz0 gV gS iS).ticks - 1) = true) ∧
+    (run P dir d0 pr stop oot x0 y Sig errz0 gV gS iS).stats.status ≠ .Exception ∧
+    (run P dir d0 pr stop oot x0 y Sig errz0 gV gS iS).stats.status ≠ .Busy :=
+  zerofpr_status_meaning_fuel P dir d0 pr stop oot x0 y Sig errz0 gV gS iS s0 hinit
+    (run_fuel P dir d0 pr stop hm N M hF oot x0 y Sig errz0 gV gS iS)
+
+/-- The final progress callback reports exactly what is returned — fuel hypothesis discharged. -/
+theorem zerofpr_final_callback (P : Problem α) (dir : Direction D α) (d0 : D)
+    (pr : Params α) (stop : Nat → Bool) (hm : StopMono stop) (N M : Nat) (hF : FuelOK pr N M)
+    (oot : Bool) (x0 y Sig errz0 gV : Vec α) (gS iS : α)
+    (s0 : St α D) (hinit : initState P d0 pr stop x0 gV gS = .inr s0) :
+    ∃ cb, (run P dir d0 pr stop oot x0 y Sig errz0 gV gS iS).callbacks.getLast? = some cb ∧
+      (run P dir d0 pr stop oot x0 y Sig errz0 gV gS iS).final = some cb.it ∧
+      cb.eps = (run P dir d0 pr stop oot x0 y Sig errz0 gV gS iS).stats.eps ∧
+      cb.status = (run P dir d0 pr stop oot x0 y Sig errz0 gV gS iS).stats.status ∧
+      cb.k = (run P dir d0 pr stop oot x0 y Sig errz0 gV gS iS).stats.iterations ∧
+      cb.gradPsiHat = P.gradL cb.it.xhat cb.it.yhat :=
+  zerofpr_final_callback_fuel P dir d0 pr stop oot x0 y Sig errz0 gV gS iS s0 hinit
+    (run_fuel P dir d0 pr stop hm N M hF oot x0 y Sig errz0 gV gS iS)
+
+/-- **`NoProgress` only after more than `max_no_progress` consecutive reported iterates with
+    identical `x`** — fuel hypothesis discharged. -/
+theorem zerofpr_noProgress_needs_consecutive (P : Problem α) (dir : Direction D α) (d0 : D)
+    (pr : Params α) (stop : Nat → Bool) (hm : StopMono stop) (N M : Nat) (hF : FuelOK pr N M)
+    (oot : Bool) (x0 y Sig errz0 gV : Vec α) (gS iS : α)
+    (hs : (run P dir d0 pr stop oot x0 y Sig errz0 gV gS iS).stats.status = .NoProgress) :
+    pr.maxNoProgress <
+      ((cbFlags (run P dir d0 pr stop oot x0 y Sig errz0 gV gS iS).callbacks).reverse.takeWhile
+        (· = true)).length :=
+  zerofpr_noProgress_needs_consecutive_fuel P dir d0 pr stop oot x0 y Sig errz0 gV gS iS
+    (run_fuel P dir d0 pr stop hm N M hF oot x0 y Sig errz0 gV gS iS) hs
+
+section examples
+open Alpaqa.Zerofpr.Example
+
+/-- a direction provider that always proposes `q = 2` -/
+def dirBack : Direction Unit Rat where
+  init d _ _ _ _ _ := d
+  hasInitial _ := true
+  apply d _ _ _ _ _ _ := (d, true, [2])
+  update d _ _ _ _ _ _ _ _ := (d, true)
+  changedGamma d _ _ := d
+  reset d := d
+
+/-- strictness 0, `max_no_progress = 1`: from `x₀ = 3` the step `x̂₀ + q = 1 + 2` returns to `x₀` and
+    is accepted (no decrease demanded) -/
+def prNP : Params Rat :=
+  { exPr with lsStrictness := 0, maxNoProgress := 1, maxIter := 10, lsFuel := 4096 }
+
+def runNP : Result Rat Unit :=
+  run exP dirBack () prNP (fun _ => false) false [3] [5] [2] [7] [] 0 1000000
+
+/-- a solve that ends with `NoProgress`: three reported iterates with the same `x = 3`, both flags
+    true, counter `2 > max_no_progress = 1`; all hypotheses of the theorem hold. -/
+example : runNP.stats.status = SolverStatus.NoProgress ∧ runNP.stats.iterations = 2 ∧
+    runNP.callbacks.map (·.it.x) = [[3], [3], [3]] ∧ cbFlags runNP.callbacks = [true, true] ∧
+    C06.npRun prNP.maxNoProgress 0 0 (cbFlags runNP.callbacks) = 2 ∧ runNP.fuelOut = false := by
+  decide +kernel
+
+example : prNP.maxNoProgress < ((cbFlags runNP.callbacks).reverse.takeWhile (· = true)).length :=
+  zerofpr_noProgress_needs_consecutive exP dirBack () prNP (fun _ => false) (fun _ _ _ h => h) 7 9
+    ⟨by norm_num [prNP, exPr], by norm_num [prNP, exPr], by norm_num [prNP, exPr],
+     by norm_num [prNP, exPr], by norm_num, by decide⟩ false [3] [5] [2] [7] [] 0 1000000
+    (by decide +kernel)
+
+/-- `status_meaning` / `status_eps_at_last_head` / `final_callback` instantiated on the `NoProgress`
+    solve (all hypotheses: `Mono`, `FuelOK`, the solve reached the main loop) -/
+example : runNP.stats.status ≠ SolverStatus.Exception ∧ runNP.stats.status ≠ SolverStatus.Busy :=
+  have h := zerofpr_status_meaning exP dirBack () prNP (fun _ => false) (fun _ _ _ h => h) 7 9
+    ⟨by norm_num [prNP, exPr], by norm_num [prNP, exPr], by norm_num [prNP, exPr],
+     by norm_num [prNP, exPr], by norm_num, by decide⟩ false [3] [5] [2] [7] [] 0 1000000 _ rfl
+  ⟨h.2.2.2.2.2.1, h.2.2.2.2.2.2⟩
+
+example : ∃ cb, runNP.callbacks.getLast? = some cb ∧ runNP.final = some cb.it ∧
+    cb.eps = runNP.stats.eps ∧ cb.status = runNP.stats.status ∧ cb.k = runNP.stats.iterations ∧
+    cb.gradPsiHat = exP.gradL cb.it.xhat cb.it.yhat :=
+  zerofpr_final_callback exP dirBack () prNP (fun _ => false) (fun _ _ _ h => h) 7 9
+    ⟨by norm_num [prNP, exPr], by norm_num [prNP, exPr], by norm_num [prNP, exPr],
+     by norm_num [prNP, exPr], by norm_num, by decide⟩ false [3] [5] [2] [7] [] 0 1000000 _ rfl
+
+/-- an interrupted solve and one that runs out of iterations meet the hypotheses too -/
+example : (∃ s0, initState exP () exPr stopAt9 [3] [] 0 = .inr s0) ∧
+    (exRun stopAt9).stats.status = SolverStatus.Interrupted ∧ (exRun stopAt9).fuelOut = false := by
+  refine ⟨⟨_, rfl⟩, ?_⟩; decide +kernel
+
+end examples
+end field
 
 end Alpaqa.Props.C06_Zerofpr
